@@ -65,7 +65,8 @@ class PoolCheck(Check):
         return {'pool_entries': len(self.entries),
                 'pool_documents': sum(len(e.docs) for e in self.entries.values()),
                 'reference_table_entries': len(self.refs),
-                'pool_fault_documents_not_rejected_by_reference': [list(x) for x in self.not_rejected][:20]}
+                'pool_fault_documents_not_rejected_by_reference': [list(x) for x in self.not_rejected][:20],
+                'pool_valid_documents_rejected_by_reference': [list(x) for x in __import__('pool.pool').pool.LAST_VALID_REJECTED][:20]}
 
 
 def delivery_facts(data, src, core_):
